@@ -28,15 +28,22 @@ def gen_components(chk):
             meth = rng.choice([b"GET", b"POST", b"PUT", b"DELETE", b"OPTIONS", b"CONNECT", G.token(rng, 1, 8, b"ABCDEFGHIJKLMNOPQRSTUVWXYZ")])
             uri = b"/" + bytes(rng.choice(b"abc/?=&%.~-_:@") for _ in range(rng.randint(0, 20)))
             comps.append(dict(kind="req", method=meth, uri=uri, ma=rng.choice([49, 49, 50]), mi=rng.choice([49, 48, 49]), hdrs=hdrs, body=body))
+            if rng.random() < 0.5:
+                comps[-1]["ops"], comps[-1]["explicit_cl"] = builder_ops(rng, hdrs, len(body), True)
         elif kind == "rsp":
             status = rng.choice([200, 201, 404, 500, 299, 599, 100 + rng.randrange(500)])
             reason = b"" if rng.random() < 0.6 else G.value(rng, 1, 10).replace(b"\t", b"x")
             comps.append(dict(kind="rsp", status=status, reason=reason, hdrs=hdrs, body=body))
+            if rng.random() < 0.5:
+                comps[-1]["ops"], comps[-1]["explicit_cl"] = builder_ops(rng, hdrs, len(body), False, status >= 200 and status not in (204, 304))
         else:
             nch = rng.randint(0, 3)
+            long_stream = rng.random() < 0.04
+            if long_stream:
+                nch = rng.randint(300, 1500)      # a long stream through one receiver
             chunks = []
             for _ in range(nch):
-                sz = rng.choice([1, 2, 9, 15, 16, 17, 255, 256, 4095, 4096, 65535, 70000])
+                sz = rng.choice([1, 2, 9, 15, 16, 17, 255, 256, 4095, 4096, 65535, 70000]) if not long_stream else rng.choice([1, 2, 3])
                 ext = b"" if rng.random() < 0.6 else G.token(rng, 1, 5) + (b"=" + G.token(rng, 1, 4) if rng.random() < 0.5 else b"")
                 chunks.append((bytes([rng.randrange(256)]) * sz, ext))
             lext = b"" if rng.random() < 0.7 else G.token(rng, 1, 5)
@@ -49,10 +56,40 @@ def hdr_string(hdrs):
     return b"".join(n + b": " + v + b"\r\n" for n, v in hdrs)
 
 
+def builder_ops(rng, hdrs, body_len, is_req, may_state_length=True):
+    """the same final header string reached through the builder interface: a constructor string, set_header_string
+    (which discards what was there), add_header calls, an explicit add_content_length_header"""
+    hdrs = ([(b"Host", b"h")] if is_req else []) + list(hdrs)
+    ops = []
+    k = rng.randint(0, len(hdrs))
+    if rng.random() < 0.5:
+        # something that is replaced later: it may well contain framing headers
+        junk = rng.choice([b"", b"X-Old: 1\r\n", b"Content-Length: 77\r\n", b"Transfer-Encoding: chunked\r\n"])
+        ops.append("C:" + hexs(junk))
+        if rng.random() < 0.5:
+            ops.append("L:%d" % rng.randrange(1000))
+        if rng.random() < 0.5:
+            ops.append("F:%s:%s" % (hexs(b"Content-Length"), hexs(b"5")))
+        ops.append("S:" + hexs(hdr_string(hdrs[:k])))
+    else:
+        ops.append("C:" + hexs(hdr_string(hdrs[:k])))
+    for n, v in hdrs[k:]:
+        ops.append("F:%s:%s" % (hexs(n), hexs(v)))
+    # (an explicit Content-Length on a response that may not have a body would announce bytes that are never written)
+    explicit = may_state_length and rng.random() < 0.3
+    if explicit:
+        ops.append("L:%d" % body_len)
+    return ";".join(ops), explicit
+
+
 def encode_cases(c):
     """h_pure cases that produce the encoder output for the component"""
     if c["kind"] == "hdrid":
         return ["hdrid %d %s" % (c["id"], hexs(c["value"]))]
+    if c["kind"] == "req" and c.get("ops"):
+        return ["reqops %s %s %d %d %s %d" % (hexs(c["method"]), hexs(c["uri"]), c["ma"], c["mi"], c["ops"], len(c["body"]))]
+    if c["kind"] == "rsp" and c.get("ops"):
+        return ["respops %d %s %s %d" % (c["status"], hexs(c["reason"]), c["ops"], len(c["body"]))]
     if c["kind"] == "req":
         return ["reqmsg %s %s %d %d %s %d" % (hexs(c["method"]), hexs(c["uri"]), c["ma"], c["mi"], hexs(b"Host: h\r\n" + hdr_string(c["hdrs"])), len(c["body"]))]
     if c["kind"] == "rsp":
